@@ -4,14 +4,15 @@ package main
 // big-endian elements, scalar fast path, raw-bytes retention via baseItem.setRaw). Bridged to
 // decode_num of coq/theories/Secs2/Decode.v in coq/theories/Gen/Bridge2Secs2Decode.v.
 //
-// secs2.Item is the sum of the LEAF item types only (ListItem holds []Item: a mutually recursive
-// type the translator does not generate); decodeItem itself (recursive, builds ListItem) is not
-// translated. decodeSlab.next* hand out fresh zero items (trusted allocator; the slab's own
-// bookkeeping is the subject of Secs2/Slab.v).
+// secs2.Item is the sum of the nine built-in item types; ListItem holds []Item and is declared in the
+// same mutual Inductive. decodeItem is self-recursive: it is a Fixpoint on an explicit fuel (out of
+// fuel = GPanic; the bridge quantifies over sufficient fuel). Floats are their IEEE bit patterns
+// (float64(float32) = go_f32_widen). decodeSlab.next* hand out fresh zero items (trusted allocator;
+// the slab's own bookkeeping is the subject of Secs2/Slab.v).
 func init() {
-	registerSum2("secs2", "Item", []string{"*IntItem", "*UintItem", "*BinaryItem", "*BooleanItem", "*ASCIIItem", "*JIS8Item", "*LocalizedStrItem"})
+	registerSum2("secs2", "Item", []string{"*IntItem", "*UintItem", "*FloatItem", "*BinaryItem", "*BooleanItem", "*ASCIIItem", "*JIS8Item", "*LocalizedStrItem", "*ListItem"})
 	for _, f := range []string{"nextInt", "nextUint", "nextFloat", "nextASCII", "nextJIS8", "nextLocalizedStr", "nextBinary", "nextBoolean"} {
 		registerFreshAlloc2("secs2", "decodeSlab."+f)
 	}
-	register2("secs2", []string{"baseItem.setRaw", "decodeIntItem", "decodeUintItem"})
+	register2("secs2", []string{"baseItem.setRaw", "decodeIntItem", "decodeUintItem", "decodeFloatItem", "ownedString", "decodeItem"})
 }
